@@ -626,6 +626,13 @@ def _str_method(I, o, name):
             return o.replace(x, y)
         if isinstance(x, str) and len(x) == 1 and isinstance(y, str):
             return charmap_apply(I, o, {x: y})
+        if len(a) == 2 and not k and ops.kind_of(x) == "str" and ops.kind_of(y) == "str" and ops.kind_of(o) == "str":
+            # general case: SMT-LIB str.replace_all (every non-overlapping occurrence, left to right, as CPython) - defined for a non-empty pattern
+            pat = mk_str(x)
+            if I.ctx.branch(z3.Length(pat) == 0):
+                raise OutsideSubset("str.replace with a possibly empty pattern")
+            so, sy = mk_str(o), mk_str(y)
+            return Sym(z3.SeqRef(z3.Z3_mk_seq_replace_all(so.ctx_ref(), so.as_ast(), pat.as_ast(), sy.as_ast()), so.ctx), "str")
         raise OutsideSubset("str.replace on a symbolic string with a non single-character pattern")
 
     def lower(I, a, k):
